@@ -40,7 +40,7 @@ func (c12) Classes() []sim.Class {
 func (c12) Describe() sim.Description {
 	return sim.Description{
 		Level: "exploration",
-		Rule: "per run the tape draws a plan (name and custom sections, memory with a maximum, growth from guest and host, traps, host calls), a call script, and 2-4 runtime descriptions, each a point of {cache: none | private in-memory | shared in-memory | directory (cold, then warm for later runtimes)} x memory-capacity-from-max x allocator {default, slice-backed, slice-backed with spare capacity} x debug info x custom sections x listeners {none, all, subset} x close-on-context-done (never triggered), " +
+		Rule: "class snapshot-restore: experimental checkpoints (snapshot in a host function, restore from 0-5 guest frames deeper) under listeners on guest and/or host functions, debug info, close-on-context-done and a cache, each configuration judged against the baseline one; otherwise: per run the tape draws a plan (name and custom sections, memory with a maximum, growth from guest and host, traps, host calls), a call script, and 2-4 runtime descriptions, each a point of {cache: none | private in-memory | shared in-memory | directory (cold, then warm for later runtimes)} x memory-capacity-from-max x allocator {default, slice-backed, slice-backed with spare capacity} x debug info x custom sections x listeners {none, all, subset} x close-on-context-done (never triggered), " +
 			"plus the order in which those runtimes compile, instantiate, run and close over the shared cache objects (so an entry compiled under one setting is reused under another, and warm directory starts are real deserialisations). Oracle: each runtime's canonical trace (results, error kinds, host-call log, final memory cells/globals, memory.size) equals the trace of the baseline configuration on the same engine. No fault injection. " +
 			"Non-trivial: at least two runtimes with different settings touched the same cache object, or a warm directory entry was used; distinct = distinct (configuration tuple sequence)",
 		RealCode:    []string{"config.go RuntimeConfig options", "cache.go, internal/filecache (real directory)", "wazevo engine_cache.go re-binding of cached entries", "internal/wasm/binary decoder memory sizing", "experimental.MemoryAllocator and listeners"},
